@@ -1,12 +1,51 @@
 import Driver.Util
+import Driver.C01
+import Driver.C02
+import Driver.C03
+import Driver.C04
+import Driver.C05
+import Driver.C06
+import Driver.C07
+import Driver.C08
+import Driver.C09
+import Driver.C10
+import Driver.C11
+import Driver.C12
+import Driver.C13
+import Driver.C14
+import Driver.C15
 import Driver.C16
+import Driver.C17
+import Driver.C18
+import Driver.C19
+import Driver.C20
 /-! `lvdriver`: one request per line on stdin (`<suite> <op> <args…>`), one answer line on stdout
-(`<model>|<spec>`).  Unknown requests answer `bad-op` — never a default value. -/
+(`<model>|<spec>`, spec `-` when there is no independent spec for the op).  Unknown requests answer
+`bad-op` — never a default value. -/
 open Driver
 
 def dispatch (line : String) : String :=
   match splitWords line with
+  | "C01" :: rest => Driver.C01.handle rest
+  | "C02" :: rest => Driver.C02.handle rest
+  | "C03" :: rest => Driver.C03.handle rest
+  | "C04" :: rest => Driver.C04.handle rest
+  | "C05" :: rest => Driver.C05.handle rest
+  | "C06" :: rest => Driver.C06.handle rest
+  | "C07" :: rest => Driver.C07.handle rest
+  | "C08" :: rest => Driver.C08.handle rest
+  | "C09" :: rest => Driver.C09.handle rest
+  | "C10" :: rest => Driver.C10.handle rest
+  | "C11" :: rest => Driver.C11.handle rest
+  | "C12" :: rest => Driver.C12.handle rest
+  | "C13" :: rest => Driver.C13.handle rest
+  | "C14" :: rest => Driver.C14.handle rest
+  | "C15" :: rest => Driver.C15.handle rest
   | "C16" :: rest => Driver.C16.handle rest
+  | "C17" :: rest => Driver.C17.handle rest
+  | "C18" :: rest => Driver.C18.handle rest
+  | "C19" :: rest => Driver.C19.handle rest
+  | "C20" :: rest => Driver.C20.handle rest
   | _ => "bad-op"
 
 partial def loop (h : IO.FS.Stream) (out : IO.FS.Stream) : IO Unit := do
